@@ -80,7 +80,9 @@ def reparse_if_needed(student_code=None, report=MAIN_REPORT):
         cait['success'] = cait['error'] is None
         return cait
     # Try to steal parse from Source module, if available
-    if use_source_tool and report[SOURCE_TOOL_NAME]['success']:
+    # (only when that parse is of this very text: verify() may have been given other code since)
+    if (use_source_tool and report[SOURCE_TOOL_NAME]['success']
+            and report[SOURCE_TOOL_NAME].get('ast_source') == student_code):
         student_ast = report[SOURCE_TOOL_NAME]['ast']
         cait['success'] = True
         cait['error'] = None
